@@ -672,3 +672,7 @@ impl InstrFormat for MsgHooks {
         f.write_u32(0)
     }
 }
+
+#[cfg(kani)]
+#[path = "/verif/contracts/kani/msg.rs"]
+mod verif_kani;
